@@ -11,10 +11,10 @@ from ..astutil import (
 from ..cfg import no_exc
 from ..report import Registry, sub, chain
 from ._helpers_rules_c import (
-    attr_store_sites, both, call_nodes, calls_ending, cut_edges, cut_exc_out, fin_quiet, must_pass, own_calls, quiet,
+    attr_store_sites, both, call_nodes, calls_ending, cut_edges, cut_exc_out, must_pass, own_calls, quiet,
     rcfg, receiver_class, reraise_view, test_edges, trivial_predicates,
 )
-from ._helpers_rob_a import normal_form, transitive_owners
+from ._helpers_rob_a import fin_quiet, normal_form, transitive_owners
 
 R = Registry(
     "C23",
@@ -217,6 +217,26 @@ TRANSACTION_WRITERS = {
 }
 
 
+def _receiver_class(ix, m, st, recv, depth=0):
+    """receiver_class, followed through a single-assignment local alias (`conn = self.connection`)."""
+    rc = receiver_class(ix, m, st, recv)
+    if rc is not None or depth > 2:
+        return rc
+    head, _, rest = recv.partition(".")
+    pm = m.parents()
+    fn = pm.get(st)
+    while fn is not None and not isinstance(fn, (ast.FunctionDef, ast.AsyncFunctionDef)):
+        fn = pm.get(fn)
+    if fn is None or not head.isidentifier():
+        return None
+    defs = [v for x in walk_local(fn) if isinstance(x, ast.Assign) and len(x.targets) == 1
+            and isinstance(x.targets[0], ast.Name) and x.targets[0].id == head for v in [x.value]]
+    stores = [x for x in walk_local(fn) if isinstance(x, ast.Name) and x.id == head and isinstance(x.ctx, (ast.Store, ast.Del))]
+    if len(defs) != 1 or len(stores) != 1 or dotted(defs[0]) is None or "()" in dotted(defs[0]):
+        return None
+    return _receiver_class(ix, m, st, dotted(defs[0]) + ("." + rest if rest else ""), depth + 1)
+
+
 @R.rule("C23-R3", floor=8, template="T-OWN",
         desc="Connection._transaction / _nested_transaction are written only by the transaction classes "
              "and Connection.__init__/begin")
@@ -228,7 +248,7 @@ def r3(ctx):
         seen = set()
         for owner, d, st, m in attr_store_sites(ix, attr):
             recv = d.rsplit(".", 1)[0] if not d.startswith("setattr:") else None
-            rc = receiver_class(ix, m, st, recv) if recv else None
+            rc = _receiver_class(ix, m, st, recv) if recv else None
             ctx.require(rc is not None,
                         f"cannot determine the class of `{recv}` in `{unparse(st).splitlines()[0]}` ({owner}); "
                         f"add an annotation-aware case or an exception entry")
@@ -265,7 +285,7 @@ def r3(ctx):
              "_trans_context_manager is restored on every exit of both arms")
 def r4(ctx):
     f = _nf(ctx, f"{UTIL}::TransactionalContext.__exit__", "commit", "rollback", "close", "_transaction_is_active",
-            "_rollback_can_be_called", "_transaction_is_closed", alias="dotted")
+            "_rollback_can_be_called", "_transaction_is_closed")
     g = rcfg(ctx, f, strict_exc=True)
     triv = trivial_predicates(ctx, f)(g)
     ctx.require(len(f.params) >= 2, "__exit__ lost its exception-type parameter")
@@ -305,9 +325,10 @@ def r4(ctx):
     for d, t, st in attr_stores(f.node):
         if d.endswith("._trans_context_manager") and isinstance(st, ast.Assign) and (dotted(st.value) or "").endswith("_outer_trans_ctx"):
             gs = lexical_guards(pm, st, stop=f.node)
-            if gs:
+            # (a flag local or, once the flag is resolved to its definition, a call-free condition on the subject)
+            if gs and not any(isinstance(x, ast.Call) for x in ast.walk(gs[-1][0])):
                 skip_atoms |= set(test_atoms(gs[-1][0], not gs[-1][1]))
-    oob = test_edges(g, lambda t, p: (t, p) in skip_atoms and t.isidentifier())
+    oob = test_edges(g, lambda t, p: (t, p) in skip_atoms)
     starts = [b for t in main for b, lab in g.succ[t] if lab in ("true", "false")]
     w = must_pass(g, starts, [g.exit, g.raise_exit], restore, edge_ok=both(quiet(g), triv, fin_quiet(g), cut_edges(oob))) if restore else ["never restored"]
     ctx.check(w is None, f.key + ":context-restored",
@@ -595,3 +616,104 @@ R.mutant("cancel-unlink-only-when-previous", ENG,
 R.mutant("benign-cancel-flag-cleared-only-if-set", ENG,
          sub("        # without any action being taken\n        self.is_active = False\n        self._deactivate_from_connection()\n",
              "        # without any action being taken\n        if self.is_active:\n            self.is_active = False\n        self._deactivate_from_connection()\n"), None)
+
+# ---------------------------------------------------------------------- rob-A: behaviour-preserving refactorings
+# (families of the stored benign/rfA_*.diff + variants in the same spirit; the rules analyse the normal form of
+# the anchored functions -- helpers inlined, single-assignment locals resolved -- see _helpers_rob_a)
+_CANCEL2 = ("                if self.connection._nested_transaction:\n"
+            "                    self.connection._nested_transaction._cancel()\n")
+_CANCEL1 = ("            if self.connection._nested_transaction:\n"
+            "                self.connection._nested_transaction._cancel()\n")
+_CANCEL_HELPER = ("    def _cancel_savepoints(self) -> None:\n"
+                  "        innermost = self.connection._nested_transaction\n"
+                  "        if innermost:\n"
+                  "            innermost._cancel()\n\n")
+R.mutant("benign-rob-cancel-savepoints-extracted-helper", ENG,
+         chain(sub(_CANCEL2, "                self._cancel_savepoints()\n"),
+               sub(_CANCEL1 + "        finally:\n            if self.is_active or try_deactivate:", "            self._cancel_savepoints()\n        finally:\n            if self.is_active or try_deactivate:"),
+               sub("    def _close_impl(self, try_deactivate: bool = False) -> None:\n", _CANCEL_HELPER + "    def _close_impl(self, try_deactivate: bool = False) -> None:\n")), None)
+_RESTORE = ("                if not out_of_band_exit:\n"
+            "                    assert subject is not None\n"
+            "                    subject._trans_context_manager = self._outer_trans_ctx\n"
+            "                self._trans_subject = self._outer_trans_ctx = None\n")
+R.mutant("benign-rob-exit-restore-extracted-helper", UTIL,
+         chain(sub(_RESTORE, "                self._restore_outer(subject, out_of_band_exit)\n", count=2),
+               sub("    def __exit__(self, type_: Any, value: Any, traceback: Any) -> None:\n",
+                   "    def _restore_outer(self, subject: Any, oob: bool) -> None:\n"
+                   "        if not oob:\n            assert subject is not None\n"
+                   "            subject._trans_context_manager = self._outer_trans_ctx\n"
+                   "        self._trans_subject = self._outer_trans_ctx = None\n\n"
+                   "    def __exit__(self, type_: Any, value: Any, traceback: Any) -> None:\n")), None)
+# the out-of-band flag inlined into its two uses (no local at all)
+R.mutant("benign-rob-exit-oob-flag-inlined", UTIL,
+         chain(sub("        out_of_band_exit = (\n            subject is None or subject._trans_context_manager is not self\n        )\n", ""),
+               sub("                if not out_of_band_exit:\n", "                if not (subject is None or subject._trans_context_manager is not self):\n", count=2)), None)
+R.mutant("benign-rob-exit-clean-exit-flag", UTIL,
+         sub("        if type_ is None and self._transaction_is_active():\n",
+             "        no_error = type_ is None\n        if no_error and self._transaction_is_active():\n"), None)
+# the two identical `finally` clauses merged into one around the whole if/else
+R.mutant("benign-rob-exit-single-finally", UTIL,
+         sub("        if type_ is None and self._transaction_is_active():\n            try:\n                self.commit()\n            except:\n"
+             "                with util.safe_reraise():\n                    if self._rollback_can_be_called():\n                        self.rollback()\n"
+             "            finally:\n" + _RESTORE +
+             "        else:\n            try:\n                if not self._transaction_is_active():\n                    if not self._transaction_is_closed():\n"
+             "                        self.close()\n                else:\n                    if self._rollback_can_be_called():\n                        self.rollback()\n"
+             "            finally:\n" + _RESTORE,
+             "        try:\n            if type_ is None and self._transaction_is_active():\n                try:\n                    self.commit()\n                except:\n"
+             "                    with util.safe_reraise():\n                        if self._rollback_can_be_called():\n                            self.rollback()\n"
+             "            elif not self._transaction_is_active():\n                if not self._transaction_is_closed():\n                    self.close()\n"
+             "            elif self._rollback_can_be_called():\n                self.rollback()\n"
+             "        finally:\n" + _RESTORE.replace("                ", "            ")), None)
+# local alias of self.connection + early exit for the inactive case (inverted if/else)
+R.mutant("benign-rob-root-commit-conn-alias-inverted", ENG,
+         sub("    def _do_commit(self) -> None:\n        if self.is_active:\n            assert self.connection._transaction is self\n\n"
+             "            try:\n                self._connection_commit_impl()\n            finally:\n"
+             "                # whether or not commit succeeds, cancel any\n                # nested transactions, make this transaction \"inactive\"\n"
+             "                # and remove it as a reset agent\n" + _CANCEL2 + "\n                self._deactivate_from_connection()\n\n"
+             "            # ...however only remove as the connection's current transaction\n            # if commit succeeded.  otherwise it stays on so that a rollback\n"
+             "            # needs to occur.\n            self.connection._transaction = None\n        else:\n"
+             "            if self.connection._transaction is self:\n                self.connection._invalid_transaction()\n            else:\n"
+             "                raise exc.InvalidRequestError(\"This transaction is inactive\")\n",
+             "    def _do_commit(self) -> None:\n        conn = self.connection\n        if not self.is_active:\n"
+             "            if conn._transaction is self:\n                conn._invalid_transaction()\n"
+             "            raise exc.InvalidRequestError(\"This transaction is inactive\")\n\n"
+             "        assert conn._transaction is self\n        try:\n            self._connection_commit_impl()\n        finally:\n"
+             "            savepoint = conn._nested_transaction\n            if savepoint:\n                savepoint._cancel()\n"
+             "            self._deactivate_from_connection()\n        conn._transaction = None\n"), None)
+# `a and b and c` split into nested ifs through a local
+R.mutant("benign-rob-nested-close-nested-ifs", ENG,
+         sub("            if (\n                self.is_active\n                and self.connection._transaction\n                and self.connection._transaction.is_active\n            ):\n"
+             "                self.connection._rollback_to_savepoint_impl(self._savepoint)\n",
+             "            if self.is_active:\n                root = self.connection._transaction\n                if root and root.is_active:\n"
+             "                    self.connection._rollback_to_savepoint_impl(self._savepoint)\n"), None)
+# the `clear myself from the connection` step of _close_impl extracted (R2 follows the helper, R3: a private helper
+# whose only caller is a listed writer acts for it)
+R.mutant("benign-rob-root-close-clear-helper", ENG,
+         chain(sub("            if self.connection._transaction is self:\n                self.connection._transaction = None\n\n        assert not self.is_active\n",
+                   "            self._detach_from_connection()\n\n        assert not self.is_active\n"),
+               sub("    def _close_impl(self, try_deactivate: bool = False) -> None:\n",
+                   "    def _detach_from_connection(self) -> None:\n        if self.connection._transaction is self:\n"
+                   "            self.connection._transaction = None\n\n    def _close_impl(self, try_deactivate: bool = False) -> None:\n")), None)
+# ... but the same helper called from a non-owner is still a foreign writer
+R.mutant("rob-clear-helper-called-from-connection", ENG,
+         chain(sub("            if self.connection._transaction is self:\n                self.connection._transaction = None\n\n        assert not self.is_active\n",
+                   "            self._detach_from_connection()\n\n        assert not self.is_active\n"),
+               sub("    def _close_impl(self, try_deactivate: bool = False) -> None:\n",
+                   "    def _detach_from_connection(self) -> None:\n        if self.connection._transaction is self:\n"
+                   "            self.connection._transaction = None\n\n    def prepare_detach(self) -> None:\n        self._detach_from_connection()\n\n"
+                   "    def _close_impl(self, try_deactivate: bool = False) -> None:\n")), "C23-R3")
+# a helper that hides the missing obligation is seen through: the savepoints are cancelled only when commit succeeded
+R.mutant("rob-cancel-savepoints-helper-not-in-finally", ENG,
+         chain(sub(_CANCEL2 + "\n                self._deactivate_from_connection()\n", "                self._deactivate_from_connection()\n            self._cancel_savepoints()\n"),
+               sub("    def _close_impl(self, try_deactivate: bool = False) -> None:\n", _CANCEL_HELPER + "    def _close_impl(self, try_deactivate: bool = False) -> None:\n")), "C23-R2")
+R.mutant("benign-rob-cancel-early-return", ENG,
+         sub("        self._deactivate_from_connection()\n        if self._previous_nested:\n            self._previous_nested._cancel()\n",
+             "        self._deactivate_from_connection()\n        outer = self._previous_nested\n        if not outer:\n            return\n        outer._cancel()\n"), None)
+# today's text of the two C23-R7 inputs that stopped applying after the `begin` fix
+R.mutant("begin-flag-reset-not-in-finally-2", ENG,
+         sub("                self._handle_dbapi_exception(e, None, None, None, None)\n        finally:\n            self.__in_begin = False\n\n    def _rollback_impl",
+             "                self._handle_dbapi_exception(e, None, None, None, None)\n        finally:\n            pass\n        self.__in_begin = False\n\n    def _rollback_impl"), "C23-R7")
+R.mutant("benign-rob-begin-flag-reset-helper", ENG,
+         chain(sub("                self._handle_dbapi_exception(e, None, None, None, None)\n        finally:\n            self.__in_begin = False\n\n    def _rollback_impl",
+                   "                self._handle_dbapi_exception(e, None, None, None, None)\n        finally:\n            self._end_begin()\n\n    def _rollback_impl"),
+               sub("    def _rollback_impl(self) -> None:\n", "    def _end_begin(self) -> None:\n        self.__in_begin = False\n\n    def _rollback_impl(self) -> None:\n")), None)
